@@ -175,8 +175,14 @@ def shape_of(name, isdir, relpath, style="none"):
         out.add("C18-F1")
     if "!" in name and style == "none":
         out.add("C18-F2")
-    if ("\\" in relpath or "$" in relpath) and not _has_ctrl_completer(relpath) and _quote_in_use(style, relpath) in relpath:
+    user_raw = STYLES[style][2]
+    if (user_raw or (("\\" in relpath or "$" in relpath) and not _has_ctrl_completer(relpath))) \
+            and _quote_in_use(style, relpath) in relpath:
         out.add("C18-F3")
+    if user_raw and _has_ctrl_completer(relpath):
+        out.add("C18-F12")
+    if style in ("tsq", "tdq") and not isdir and relpath.endswith(STYLES[style][1][0]):
+        out.add("C18-F13")
     if name.endswith(" "):
         out.add("C18-F4")
     if style == "none" and _lexmsg_shape(relpath):
@@ -197,6 +203,8 @@ def case_shapes(case):
         out.add("C18-F10")
     if case["style"] in ("sq", "dq", "tsq", "tdq", "psq", "pdq") and not dirpart and min(case["k"], len(case["name"])) == 0:
         out.add("C18-F11")
+    if case.get("closed") and not dirpart and case["name"][:case["k"]] in (".", ".."):
+        out.add("C18-F14")
     return out
 
 
@@ -266,6 +274,8 @@ def build_line(case):
         return None
     if not raw and (chars.startswith("~") and "/" in chars):
         return None          # `~/x` in a non-raw word is the home directory, not a directory named ~
+    if pathlike and rel.startswith("~"):
+        return None          # a p-string always expands a leading ~ (even pr'..'): it cannot name such an entry
     typed = encode_typed(chars, style, closed)
     if typed is None:
         return None
@@ -274,7 +284,8 @@ def build_line(case):
     head = "rec " + opt + typed
     line = head + (closing if closed else "")
     if pathlike:
-        want = {str(PurePosixPath(rel))}
+        # pathlib's spelling when the candidate stays a p-string; the plain spelling when the completer replaces it
+        want = {str(PurePosixPath(rel)), rel} | ({rel + "/"} if case["isdir"] else set())
     elif case["isdir"]:
         want = {opt + rel, opt + rel + "/"}
     else:
@@ -342,6 +353,9 @@ def _classify_a(case, info, cand, got, kind):
             message is delivered
     C18-F10 closing TRIPLE quote already after the cursor: not noticed, a second closing quote (+ blank) is inserted
     C18-F11 nothing typed yet after a non-raw opening quote: the quote itself is taken for the path prefix
+    C18-F12 raw quote opened by the user, name with newline/tab/CR/FF/VT: the escape is written into the raw string
+    C18-F13 triple quote opened by the user, file name ending in that quote character: four quotes in a row
+    C18-F14 `./` `../` candidates ignore the opened quote: with the closing quote after the cursor a stray quote is left
     """
     name = case["name"]
     shapes = case_shapes(case)
@@ -381,6 +395,13 @@ def _classify_a(case, info, cand, got, kind):
         return "C18-F10"
     if "C18-F6" in shapes and not cand_q and isinstance(got, list) and any(_LEXMSG in a for call in got for a in call):
         return "C18-F6"
+    if "C18-F12" in shapes and cand_raw and kind in ("names-nothing", "target-lost", "ambiguous") and re.search(r"\\[ntrfv]", text):
+        return "C18-F12"
+    if "C18-F13" in shapes and kind in ("line-error", "argv-shape", "names-nothing") and cand_q and \
+            re.search(re.escape(cand_q) + "{4,} ?$", text):
+        return "C18-F13"
+    if "C18-F14" in shapes and kind == "line-error" and text in ("./", "../"):
+        return "C18-F14"
     return None
 
 
@@ -512,7 +533,7 @@ FIXED_NAMES = [
     "plain", "a b", " lead", "a  b", "a'b", 'a"b', "'", '"', "''", "'a'", '"a"', "a'b\"x", "$", "$HOME", "${HOME}", "a$b", "$(a)", "@(a)", "@$(a)",
     "a\\b", "\\a", "a\\\\b", "a\\'b", "a\nb", "\n", "a\tb", "a\rb", "a\x0bb", "a\x01b", "a\x7fb", "a\\nb", "a\nb\\", "x*y", "*", "?", "[a]", "a[",
     "{a}", "{a,b}", "a;b", "a&b", "a&&b", "a|b", "a<b", "a>b", "e>o", "2>", "(a)", "a)", "`a`", "a,b", "#hash", "a#b", "~", "~x", "~~", "a~",
-    "-", "-n", "--x=y", ".hid", "...", "a=b", "=", "a:b", "%a%", "^a", "+", "@", "a@b", "é", "中 文", " ", "٣", "²x", "a​b",
+    "-", "-n", "--x=y", ".hid", "...", "a=b", "=", "a:b", "%a%", "^a", "+", "@", "a@b", "é", "中 文", "\xa0", "\u0663", "\xb2x", "a\u200bb", "sp ", " ", "trail\\", "tr\\\\", "a!b", "!a", "a!", "q'\"$", "a'$", 'a"\\b', "a'", 'a"',
     "and", "or", "not", "in", "None", "lambda", "import", "r'a'", "p'a'", "f'{a}'", "b'a'", "r", "p", "''' '''", "1", "2>&1", "&", "|", ";", "<", ">",
 ]
 
@@ -574,7 +595,12 @@ def repair_known(case, open_ids, stats=None, flip=False):
                 name, subdir = name.replace(q, "q"), subdir.replace(q, "q")
                 if case["style"] == "none":
                     name, subdir = name.replace("'", "q"), subdir.replace("'", "q")
-        if "C18-F10" in shp:
+        if "C18-F12" in shp:
+            fixc = lambda t: "".join("c" if c in "\n\t\r\x0c\x0b" else c for c in t)  # noqa: E731
+            name, subdir = fixc(name), fixc(subdir)
+        if "C18-F13" in shp:
+            name = name + "e"
+        if "C18-F10" in shp or "C18-F14" in shp:
             case["closed"] = False
         if "C18-F11" in shp:
             case["k"] = 1
@@ -588,7 +614,7 @@ def case_strategy_a(open_ids, stats=None):
 
     awkward = list(" \t\n\r'\"$\\*?[]{}()<>|&;`!#~-=,.@:%^+") + ["\x0b", "\x0c", "\x01", "\x7f"]
     safe = list("abxyzAB012_")
-    nonascii = ["é", "ß", "中", "\U0001f600", "​", " ", "́", "٣", "²"]
+    nonascii = ["\xe9", "\xdf", "\u4e2d", "\U0001f600", "\u200b", "\xa0", "\u0301", "\u0663", "\xb2"]
     ch = hs.one_of(hs.sampled_from(awkward), hs.sampled_from(awkward), hs.sampled_from(safe), hs.sampled_from(safe),
                    hs.sampled_from(nonascii), hs.characters(codec="utf-8", exclude_characters="/\x00"))
     words = hs.sampled_from(KEYWORDS + ["$HOME", "~", "e>o", "2>", "&&", "||", "--x=", "r'", "p'", "'''", "$(", "@(", "\\\\", "\\"])
@@ -636,32 +662,36 @@ def key_a(case):
             case.get("closed"), case["k"], tuple(map(tuple, case.get("decoys", []))))
 
 
-def fixed_cases(open_ids, stats=None):
+def fixed_cases(open_ids, stats=None, full=False):
+    """Hand-picked awkward names x every quote style x (k, closing quote, file|dir).  quick: 5 combinations per
+    (name, style); thorough (full): all."""
     for name in FIXED_NAMES:
         for style in STYLE_IDS:
-            for k in sorted({0, 1, len(name)}):
-                for closed in ((False,) if style == "none" else (False, True)):
-                    for isdir in (False, True):
-                        if isdir and (k != 1 or closed):
-                            continue
-                        case = {"part": "A", "name": name, "isdir": isdir, "subdir": "", "dot": False, "opt": "", "style": style,
-                                "closed": closed, "k": k, "decoys": [["decoy", False], [name + "x", False]]}
-                        shp = case_shapes(case) & open_ids
-                        if shp & case_shapes(dict(case, decoys=[])):
-                            if stats is not None:
-                                for fid in shp:
-                                    stats.excluded_known[fid] += 1
-                            continue
-                        if shp:
-                            case["decoys"] = [["decoy", False]]
-                        yield case
+            if full:
+                combos = [(k, c, d) for k in sorted({0, 1, len(name)}) for c in (False, True) for d in (False, True)]
+            else:
+                combos = [(0, False, False), (1, False, False), (len(name), False, False), (1, True, False), (1, False, True)]
+            for k, closed, isdir in sorted(set(combos)):
+                if closed and style == "none":
+                    continue
+                case = {"part": "A", "name": name, "isdir": isdir, "subdir": "", "dot": False, "opt": "", "style": style,
+                        "closed": closed, "k": k, "decoys": [["decoy", False], [name + "x", False]]}
+                shp = case_shapes(case) & open_ids
+                if shp & case_shapes(dict(case, decoys=[])):
+                    if stats is not None:
+                        for fid in shp:
+                            stats.excluded_known[fid] += 1
+                    continue
+                if shp:
+                    case["decoys"] = [["decoy", False]]
+                yield case
 
 
 def worker_a_fixed(arg):
-    shard, nshards, scratch = arg
+    shard, nshards, scratch, full = arg
     st_ = _setup(scratch)
     st = Stats()
-    for i, case in enumerate(fixed_cases(st_["open"], st if shard == 0 else None)):
+    for i, case in enumerate(fixed_cases(st_["open"], st if shard == 0 else None, full)):
         if i % nshards != shard:
             continue
         f, nt, labels = check_case_a(case)
@@ -710,8 +740,8 @@ def worker_a(arg):
 
     common.run_given(strat, body, seed, n)
     out = []
-    for f in _one_per_bucket(st.failures):
-        out.append(_shrink_a(f, st_["open"], seed))
+    for i, f in enumerate(_one_per_bucket(st.failures)):
+        out.append(_shrink_a(f, st_["open"], seed) if i < 4 else f)
     st.failures = out
     return st
 
@@ -731,7 +761,7 @@ def _shrink_a(f, open_ids, seed):
     cur, best = dict(f.case), f
     t0 = time.time()
     progress = True
-    while progress and time.time() - t0 < 20:
+    while progress and time.time() - t0 < 6:
         progress = False
         trials = []
         for i in range(len(cur.get("decoys", []))):
@@ -783,7 +813,12 @@ def _parser(second=False):
 
     key = "p2" if second else "p"
     if key not in _PB:
-        tables.install()
+        if "cc" not in _PB:
+            try:
+                tables.install()
+            except FileNotFoundError:
+                # another run (VERIF_REPO=...) pruned the table directory between the check and the load
+                tables.install()
         from xonsh.parsers import completion_context as cc
 
         _PB["cc"] = cc
@@ -1200,13 +1235,14 @@ def main(run):
     _setup(_state_scratch)
     common.replay_tier(run, _replay_case)
     os.chdir(common.VERIF)
-    na = 8
+    na = 6
     nb = 6
     per_a = run.n(450, 12000)
     per_b = run.n(30000, 800000)
     args = []
-    for w in range(2):
-        args.append(("AF", w, 2, os.path.join(run.scratch, "af%d" % w)))
+    naf = 4
+    for w in range(naf):
+        args.append(("AF", w, naf, os.path.join(run.scratch, "af%d" % w), run.tier == "thorough"))
     for w in range(na):
         args.append(("A", common.worker_seed(run.seed, w), per_a, os.path.join(run.scratch, "a%d" % w)))
     for w in range(nb):
